@@ -98,7 +98,12 @@ class Dumper:
             return "(T %s %s (linestart %d %s))" % (A, I, int("\n" in e.orig_whiteChars),
                                                     chars_sx("".join(sorted(e.skipper.whiteChars))))
         if t is pp.LineEnd: return "(T %s %s lineend)" % (A, I)
-        if t is pp.StringStart: return "(T %s %s stringstart)" % (A, I)
+        if t is pp.StringStart:
+            if e.ignoreExprs:
+                # StringStart.parseImpl compares loc with self.preParse(instring, 0), which runs the ignore expressions from 0;
+                # the model's token step is a pure function of (string, loc) and reads whitespace only
+                raise Unsupported("StringStart with ignore expressions (preParse from 0 runs sub-parsers)")
+            return "(T %s %s stringstart)" % (A, I)
         if t is pp.StringEnd: return "(T %s %s stringend)" % (A, I)
         if t is pp.WordStart: return "(T %s %s (wordstart %s))" % (A, I, chars_sx("".join(sorted(e.wordChars))))
         if t is pp.WordEnd: return "(T %s %s (wordend %s))" % (A, I, chars_sx("".join(sorted(e.wordChars))))
